@@ -8,15 +8,15 @@ props = [json.loads(l) for l in open(os.path.join(ROOT, "properties.jsonl"))]
 T = "TLA+ specification + TLC: "
 TEXT = {
  "C01": ("6 C01", T + "trace validation of every constructor call (full projected result) against DelaunayAPI!Construct - Levels 1-3 recomputed from raw slots, embedding with convex boundary, empty circumspheres, vertex provenance, counts; exhaustive over the 3x3-grid and unit-cube universes, sampled beyond, both build profiles"),
- "C02": ("6 C02", T + "trace validation of insertion histories against DelaunayAPI!Insert after every call (bootstrap or Levels 1-3 at the configured strength, exactly one new vertex, key resolves, check policy => empty circumspheres)"),
- "C03": ("6 C03", T + "every naturally failing / skipped mutating call in the insert, remove, flip and repair histories is validated against the UNCHANGED-Obs disjunct of its contract action; the cache model adds RefusalsChangeNothing and the rolled-back index"),
+ "C02": ("6 C02", T + "trace validation of insertion histories against DelaunayAPI!Insert after every call (bootstrap or Levels 1-3 at the configured strength, exactly one new vertex, key resolves, check policy => empty circumspheres, judged outside the predicates' tolerance band at the scale of the history); mechanism model InsertTxn.tla of the insertion transaction: TLC exhaustive over policies / counts / environment choices, every generated behaviour replayed through failpoint scripts and validated (Trace_InsertTxn), Apalache inductive invariant for unbounded counts (Apa_InsertTxn.tla)"),
+ "C03": ("6 C03", T + "every naturally failing / skipped mutating call in the insert, remove, flip and repair histories is validated against the UNCHANGED-Obs disjunct of its contract action; the cache model adds RefusalsChangeNothing and the rolled-back index; failpoints force every error return that follows a mutation, a twin runs the unforced continuation; mechanism models InsertTxn.tla (+ Apalache inductive invariant) and RemoveTxn.tla: AllOrNothing checked on the model, all model behaviours replayed through failpoint scripts"),
  "C04": ("6 C04", T + "Verdicts events (is_valid, validate, report, flip verifier, brute-force finder) judged against the exact-integer NoStrictlyInside oracle (soundness) and DT(S) in general position (completeness)"),
  "C05": ("6 C05", T + "Faulted events: 17 classes of single faults at every site (and pairs on tiny instances) injected into copies of valid triangulations through cfg(delaunay_verif) raw accessors; the library's per-level and cumulative verdicts are compared by TLC with Levels 1-3 recomputed from the raw projected slots (soundness per owning level, completeness, cumulative = conjunction, report empty <=> validate)"),
- "C06": ("6 C06", T + "trace validation of removal histories against DelaunayAPI!Remove"),
+ "C06": ("6 C06", T + "trace validation of removal histories against DelaunayAPI!Remove; mechanism model RemoveTxn.tla (fast inverse-k=1 path, fan path with clone / restore, post-removal repair) checked and replayed through failpoint scripts"),
  "C07": ("6 C07", T + "trace validation of Edit-API flips on every handle position against DelaunayAPI!Flip (move shape U=A+B, FlipInfo, combinatorial invariants) and inverse-restores-cells"),
  "C08": ("6 C08", T + "trace validation of both repair entry points from non-Delaunay states against DelaunayAPI!Repair"),
  "C09": ("6 C09", T + "exhaustive model check of the cache mechanism model Caches.tla (IndexComplete, IndexSound, NoDuplicateAccepted); every history TLC generates from it replayed on the real library with the spatial index observed through hooks and compared with the model after every call (Trace_Caches); duplicate/uuid conjuncts of DelaunayAPI!Insert on insertion histories"),
- "C10": ("6 C10", T + "Locate events (all lattice queries x all hints) validated against DelaunayAPI!Locate with exact closed-simplex containment and exact hull sidedness"),
+ "C10": ("6 C10", T + "Locate events (all lattice queries x all hints) validated against DelaunayAPI!Locate with exact closed-simplex containment and exact hull sidedness; mechanism model LocateWalk.tla of the facet walk (slot-order choice, visited set, step limit, scan fallback): TLC exhaustive on 2-D / 3-D complexes incl. a cycling pinwheel, and every recorded locate call must be the model's run (answer, steps, fallback)"),
  "C11": ("6 C11", T + "HullFresh model-checked on Caches.tla; generated histories with hull creation/queries replayed and compared; HullCreate/HullQuery events validated against Boundary(K) and exact visibility, staleness after every kind of mutation"),
  "C13": ("6 C13", T + "SerDe events validated against DelaunayAPI!SerDeOK (uuid, coordinate bits, data, cells, neighbour relation, equality, verdicts) and twin continuation Compare events"),
  "C12": ("6 C12", T + "Pred events (every tuple x permutation x formulation x kernel) judged against exact integer determinants in the library's documented sign convention, with the tolerance band computed in the spec (Pure.tla: DecOrient / DecSphere / ZeroOrientOK); exhaustive on the 3x3 grid, the unit cube in the thorough tier"),
@@ -60,6 +60,8 @@ m = {"version": 1, "setup_cmd": "./setup.sh",
      "engines": [
          {"name": "tlc", "path": "/verif/spec", "serves_properties": sorted(claimed),
           "kind_free_text": "TLC 1.8: model checking of spec/MC_*.tla, history generation from spec/Gen_*.tla, trace validation with spec/Trace_*.tla"},
+         {"name": "apalache", "path": "/verif/spec/Apa_InsertTxn.tla", "serves_properties": ["C02", "C03"],
+          "kind_free_text": "Apalache 0.58: inductive invariant of the insertion transaction (same step function as the TLC model) for unbounded counts"},
          {"name": "vdrive", "path": "/verif/harness", "serves_properties": sorted(claimed),
           "kind_free_text": "Rust conformance harness (path dependency on /repo, rebuilt from the working tree): drivers, projection, ndjson traces"}],
      "checks": checks, "not_applicable": na,
